@@ -209,7 +209,7 @@ def main(tier, seed, replay, t0):
         else:
             binname = {"bits": "ux_bits", "canon": "ux_fac", "conv": "ux_conv"}[scn["g"]]
             runner.run_pipeline("C04", {binname: [scn]}, tier, seed, res, neg_every=10**9, workdir=workdir + "_replay")
-        return runner.finish("C04", tier, seed, res, t0, "model_checking", RULE, vlib.DEFAULT_ASSUMPTIONS)
+        return runner.finish("C04", tier, seed, res, t0, "model_checking", RULE, vlib.DEFAULT_ASSUMPTIONS, evidence_name="C04_replay")
 
     # ---- (B1) exhaustive exploration of the machine, every transition replayed
     recs, st = tlc_machine("MC_Machine_small" if quick else "MC_Machine_large", workdir)
